@@ -294,7 +294,9 @@ def _cross_bound(fn_node, sig_of):
         if not isinstance(c, ast.Call):
             continue
         nm = c.func.attr if isinstance(c.func, ast.Attribute) else (c.func.id if isinstance(c.func, ast.Name) else None)
-        cp = sig_of(nm) if nm else None
+        cp = sig_of(c) if callable(sig_of) and getattr(sig_of, "_by_call", False) else (sig_of(nm) if nm else None)
+        if cp and isinstance(cp, tuple) and len(cp) == 2 and isinstance(cp[0], tuple):
+            cp = cp[0]
         if not cp:
             continue
         args = list(c.args)
@@ -311,6 +313,23 @@ def _cross_bound(fn_node, sig_of):
             if k.arg and isinstance(k.value, ast.Name) and k.value.id in own and k.value.id != k.arg and k.value.id in cp and k.arg in cp:
                 out.append((c, k.value.id, k.arg))
     return out
+
+
+def _resolver(repo, f, sigs2):
+    """call -> (positional params, keyword-only params) of the callee: `self.m(...)` through the class hierarchy of the calling method, any
+    other call by name when all definitions of that name in mpf/ agree."""
+    def res(c):
+        nm = c.func.attr if isinstance(c.func, ast.Attribute) else (c.func.id if isinstance(c.func, ast.Name) else None)
+        if nm is None:
+            return None
+        if isinstance(c.func, ast.Attribute) and isinstance(c.func.value, ast.Name) and c.func.value.id == "self" and f.cls is not None:
+            m = repo.lookup_method(f.cls, nm)
+            if m is not None:
+                a, b = _fn_params(m.node)
+                return (tuple(a), tuple(b))
+        return sigs2.get(nm)
+    res._by_call = True
+    return res
 
 
 def params_not_cross_bound(chk):
@@ -352,7 +371,7 @@ def params_not_cross_bound(chk):
         if f is None:
             continue
         n += 1
-        for c, own, slot in _cross_bound(f.node, sigs.get):
+        for c, own, slot in _cross_bound(f.node, _resolver(repo, f, {k: (v, ()) for k, v in sigs.items()})):
             chk.ob("SWAP-0", "a function hands its parameter on under that parameter's own name / position", False, "%s:%d" % (rel, c.lineno),
                    detail="`%s` of %s is passed as `%s` of %s, which also has a parameter `%s`: two arguments exchanged" % (
                        own, qual, slot, src(c.func)[-40:], own), construct=ident, text="parameter %s lands in slot %s of %s" % (own, slot, src(c.func)[-30:]))
@@ -383,7 +402,7 @@ def _dropped(fn_node, sig_of):
         if not isinstance(c, ast.Call):
             continue
         nm = c.func.attr if isinstance(c.func, ast.Attribute) else (c.func.id if isinstance(c.func, ast.Name) else None)
-        sg = sig_of(nm) if nm else None
+        sg = sig_of(c) if callable(sig_of) and getattr(sig_of, "_by_call", False) else (sig_of(nm) if nm else None)
         if not sg:
             continue
         cp, ck = sg
@@ -440,7 +459,7 @@ def params_not_dropped(chk):
         if f is None:
             continue
         n += 1
-        for c, p_ in _dropped(f.node, sigs.get):
+        for c, p_ in _dropped(f.node, _resolver(repo, f, sigs)):
             chk.ob("DROP-0", "a pass-through hands on every parameter its callee also takes", False, "%s:%d" % (rel, c.lineno),
                    detail="`%s` of %s is accepted, used nowhere, and not handed to %s (which has a parameter `%s`): the callee's default is used" % (
                        p_, qual, src(c.func)[-40:], p_), construct=ident, text="parameter %s swallowed before %s" % (p_, src(c.func)[-30:]))
